@@ -74,8 +74,11 @@ def observe_call(case):
     kw = rec["kw"]
     def ent(v):
         if v is None: return None
-        if float(v) != int(v): raise common.InternalError("non-integer entry in a probe call")
-        return int(v)
+        fv = float(v)
+        if fv != fv or fv in (float("inf"), float("-inf")):
+            return 987654321 if fv > 0 else -987654321      # not None: an infinite bound is not an absent bound
+        if fv != int(fv): return int(round(fv * 1000)) + 5 * 10 ** 8   # a non-integer where integers were given
+        return int(fv)
     b = np.asarray(kw.get("bounds"), dtype=object)
     if b.ndim == 1: b = b.reshape(1, -1)
     bounds = [[ent(v) for v in row] for row in b.reshape(b.shape[0], -1)]
@@ -254,10 +257,17 @@ def gen_fit_case(rng, models, kind, force=None):
     weight = None
     if loss in ("SquareLoss", "NormalLoss") and rng.random() < 0.3:
         weight = [float(v) for v in rng.uniform(0.5, 2.0, size=len(obs))]
+    if target and len(target) > 1 and rng.random() < 0.5:
+        target = [target[i] for i in rng.permutation(len(target))]
+    elif not target and len(M["params"]) > 1 and rng.random() < 0.3:
+        target = [M["params"][i] for i in rng.permutation(len(M["params"]))]
     tgt = target or M["params"]
     tsub = [th[M["params"].index(p)] for p in tgt]
     lb = [float(v * rng.uniform(0.4, 0.9)) for v in tsub]
     ub = [float(v * rng.uniform(1.1, 2.2)) for v in tsub]
+    ub_int = bool(rng.random() < 0.25)
+    if ub_int:                       # integer-typed upper bounds next to fractional lower bounds (dtype must not leak)
+        ub = [float(np.ceil(u)) if np.ceil(u) > v else float(np.ceil(u) + 1) for u, v in zip(ub, tsub)]
     if kind == "truth":
         start = list(tsub)
     else:
@@ -268,7 +278,7 @@ def gen_fit_case(rng, models, kind, force=None):
             elif r < 0.16: start[i] = ub[i]
     return dict(kind=kind, model=name, truth=th, x0=x0, times=times, obs=obs, target=target, loss=loss, hyper=hyper,
                 weight=weight, noisy=bool(noisy), y=[[float(v) for v in row] for row in y], lb=lb, ub=ub, start=start,
-                container=int(rng.integers(0, 3)))
+                container=int(rng.integers(0, 3)), ub_int=ub_int)
 
 
 def fit_corpus():
@@ -364,7 +374,10 @@ def run_fit_inner(cfg, want_fd=False):
     try:
         with pg.quiet():
             try:
-                xhat = obj.fit(cont(cfg["start"]), lb=cont(cfg["lb"]), ub=cont(cfg["ub"]))
+                ubv = cont(cfg["ub"])
+                if cfg.get("ub_int"):
+                    ubv = np.array([int(u) for u in cfg["ub"]], dtype=int) if cfg["container"] == 1 else cont([int(u) for u in cfg["ub"]])
+                xhat = obj.fit(cont(cfg["start"]), lb=cont(cfg["lb"]), ub=ubv)
             except Exception as e:
                 cls = "fit-raised"
                 if cfg["loss"] == "GammaLoss" and len(cfg["obs"]) == 1 and isinstance(e, ValueError) and "not aligned" in str(e):
